@@ -19,7 +19,8 @@ func init() {
 		"error selection for dangling links in intermediate position",
 	}
 	register(&Rule{ID: "C04.mode", Floor: 18,
-		Text: "each exported MemFS method passes to the path walk, for each of its path arguments, the symlink mode the property states: follow (slmStat or slmEval) for Stat, OpenFile, Chmod, Chown, Truncate, Mkdir, MkdirAll, EvalSymlinks, Sub, Chdir; no-follow (slmLstat) for Lstat, Readlink, Remove, RemoveAll, Rename (both), Lchown, Link (both), Symlink (new name), Chtimes is not judged",
+		Text: "each exported MemFS method passes to the path walk, for each of its path arguments, the symlink mode the property states: follow (slmStat for Stat, which reports the link's own name; slmEval, which hands back the resolved path, for OpenFile, Chmod, Chown, Truncate, Mkdir, MkdirAll, EvalSymlinks, Sub, Chdir; no-follow (slmLstat) for Lstat, Readlink, Remove, RemoveAll, Rename (both), Lchown, Link (both), Symlink (new name), Chtimes is not judged",
+		Also: []string{"C05", "C01"},
 		Run:  c04Mode})
 	register(&Rule{ID: "C04.budget", Floor: 1,
 		Text: "the link-expansion loop is bounded: every splice of a link target (ReplacePart) is dominated by the not-exceeded branch of a counter that is incremented on each link and compared with a constant, whose exceeded branch returns TooManySymlinks; the constant is the kernel's MAXSYMLINKS = 40",
@@ -129,7 +130,14 @@ func c04Mode(rc *RuleCtx) {
 			ok := false
 			switch want {
 			case "follow":
-				ok = got == "slmStat" || got == "slmEval"
+				// slmStat follows a final link but hands back the iterator of the link itself (its name and path): only
+				// Stat, which reports the link's own name, may use it; every other caller names or stores what the
+				// iterator says after the walk and needs the resolved path (slmEval)
+				if f.Name() == "Stat" {
+					ok = got == "slmStat"
+				} else {
+					ok = got == "slmEval"
+				}
 			case "nofollow":
 				ok = got == "slmLstat"
 			case "any":
